@@ -252,5 +252,34 @@ func TestVerifReplayArrays(t *testing.T) {
 			fail("%s = %q, want %q", c.expr, got, c.want)
 		}
 	}
+	// {$ ...} / {@ ...}: every argument is an element, empty ones included, wherever they stand
+	// (arguments come from groups so that nothing is folded at compile time)
+	vals := []string{"", "q", "", "r"}
+	for mask := 0; mask < 1<<3; mask++ {
+		for k := 1; k <= 3; k++ {
+			var parts, want []string
+			for j := 0; j < k; j++ {
+				idx := 0 // group 0 is empty
+				if mask&(1<<j) != 0 {
+					idx = 1 + 2*(j%2)
+				}
+				parts = append(parts, fmt.Sprintf("{%d}", idx))
+				want = append(want, vals[idx])
+			}
+			for _, op := range []string{"$", "@"} {
+				n++
+				expr := "{" + op + " " + strings.Join(parts, " ") + "}"
+				if got, _ := arEval(t, expr, &arCtx{m: vals, keys: keys}); got != strings.Join(want, "\x00") {
+					fail("%s with groups %q = %q, want %q (every argument is one element)", expr, vals, got, strings.Join(want, "\x00"))
+				}
+				if k >= 2 {
+					n++
+					if got, _ := arEval(t, "{@len "+expr+"}", &arCtx{m: vals, keys: keys}); got != strconv.Itoa(k) {
+						fail("{@len %s} with groups %q = %q, want %d", expr, vals, got, k)
+					}
+				}
+			}
+		}
+	}
 	t.Logf("array oracle: %d comparisons", n)
 }
